@@ -276,10 +276,19 @@ class FluidPropertyInterExtra(FluidProperty):
                     t_upper_k, t_lower_k)
 
         """
-        upper_limit_arg = np.asarray(upper_limit_arg)
-        lower_limit_arg = np.asarray(lower_limit_arg)
-        mean = (self.prop_getter(upper_limit_arg) + self.prop_getter(lower_limit_arg)) / 2
-        return mean * (upper_limit_arg - lower_limit_arg)
+        upper_limit_arg = np.asarray(upper_limit_arg, dtype=float)
+        lower_limit_arg = np.asarray(lower_limit_arg, dtype=float)
+        return self._antiderivative(upper_limit_arg) - self._antiderivative(lower_limit_arg)
+
+    def _antiderivative(self, arg):
+        """
+        Exact antiderivative of the piecewise linear (and linearly extrapolated) property, which
+        is zero at the first tabulated x-value.
+        """
+        x, y = self.prop_getter.x, self.prop_getter.y
+        cum = np.concatenate(([0.], np.cumsum((y[1:] + y[:-1]) / 2 * np.diff(x))))
+        i = np.clip(np.searchsorted(x, arg, side="right") - 1, 0, len(x) - 2)
+        return cum[i] + (self.prop_getter(arg) + y[i]) / 2 * (arg - x[i])
 
     @classmethod
     def from_path(cls, path, method="interpolate_extrapolate"):
